@@ -30,6 +30,7 @@ typedef struct qnode {
 	int depth;
 	// oracle state
 	int running, running_barrier, dom_running, last_item, dom_last_item, width_running;
+	int through_running;   // items running on queues below this one (their chain passes through it); moved queues are not counted
 	// suspension bookkeeping (C06)
 	int susp_ret_minus_res_call;   // D(t): suspends returned - resumes called
 	int activated_call;            // activate called (for initially inactive queues)
